@@ -1055,7 +1055,11 @@ class Origin:
         t = ('param', body.name, l - 1, body.local_name(l))
         # a `&mut` parameter of a private function that receives, at EVERY call site, a borrow of one and the same field (`fn f(best_lb: &mut
         # isize, ..)` called as `f(&mut self.best_lb, ..)`: a method turned into an associated function with partial borrows) IS that field
-        if l >= 1 and body.kind != 'closure' and body.raw.get('vis') != 'pub' and not body.impl_trait and (body.local_ty(l) or '').startswith('&mut ') \
+        # ... and a scalar parameter that receives, at every call site, the value of one and the same field which the callee never writes
+        # (`enqueue_cutset(ub, self.best_lb)`: a value threaded through a parameter instead of being re-read) is that field's value
+        by_ref = (body.local_ty(l) or '').startswith('&mut ')
+        scalar = (body.local_ty(l) or '') in ('isize', 'usize', 'bool', 'i64', 'u64', 'i32', 'u32')
+        if l >= 1 and l <= body.arg_count and body.kind != 'closure' and body.raw.get('vis') != 'pub' and not body.impl_trait and (by_ref or scalar) \
                 and (body.local_name(l) or '') != 'self':
             memo = self.facts.__dict__.setdefault('_field_params', {})
             key = (body.name, l)
@@ -1070,7 +1074,8 @@ class Origin:
                             seen.append(cb.origin.operand(ct['args'][l - 1], cb.term_point(bb)))
                 if seen and all(x == seen[0] for x in seen) and is_field(seen[0], seen[0][2] if isinstance(seen[0], tuple) and len(seen[0]) > 2 else None) \
                         and is_param(field_base(seen[0])):
-                    memo[key] = seen[0]
+                    if by_ref or (seen[0][2], seen[0][3]) not in _fields_written_by(body):
+                        memo[key] = seen[0]
             if memo[key] is not None:
                 return memo[key]
         return t
@@ -1209,6 +1214,11 @@ class Origin:
             return args[TRANSPARENT[callee]]
         if callee in INDEX_CALLS and len(args) == 2:
             return ('index', args[0], args[1])
+        if callee.split('::')[-1] == 'key' and ('Entry' in callee) and len(args) == 1:
+            # entry.key(): the key the entry was looked up with — e.key() of `map.entry(k)` is k
+            ents = [x for x in walk(args[0]) if is_call(x, 'entry') and len(x[2]) == 2]
+            if len(ents) == 1:
+                return ents[0][2][1]
         if callee in UNWRAP_CALLS and args:
             return simplify_field(simplify_variant(args[0], UNWRAP_CALLS[callee]), '0', None)
         last = callee.split('::')[-1]
